@@ -28,10 +28,21 @@ pub fn utf8_text(e: &mut Ent, max_bytes: usize) -> Vec<u8> {
     let target = match e.below(6) {
         0 => 0,
         1 => 1 + e.below(8) as usize,
-        2 => e.pick(&[4096usize, 4095, 1024, 255, 256]),
+        2 => e.pick(&[4096usize, 4095, 1024, 255, 256, 1025, 1026, 2047, 2048, 2049, 3000]),
         _ => e.below(200) as usize,
     }
     .min(max_bytes);
+    // where the newlines are: sprinkled (1 character in 16), none at all, or exactly one at a drawn position - at
+    // the start, the end, or so that a newline-free tail of about 2^10 / 2^11 / 2^12 bytes follows it (what a
+    // line-buffered console writer treats differently from the lines before)
+    let nl_mode = e.below(4);
+    let nl_at = match e.below(8) {
+        0 => 0,
+        1 => target.saturating_sub(1),
+        2 => target.saturating_sub(e.pick(&[1023usize, 1024, 1025, 1026])),
+        3 => target.saturating_sub(e.pick(&[2047usize, 2048, 2049, 4095])),
+        _ => e.below(target as u32 + 1) as usize,
+    };
     let mut s = String::new();
     // characters come from a small generator seeded by draws (long texts must not exhaust the draw vector)
     let mut x = e.u32() | 1;
@@ -40,6 +51,7 @@ pub fn utf8_text(e: &mut Ent, max_bytes: usize) -> Vec<u8> {
         x = x.wrapping_mul(1664525).wrapping_add(1013904223);
         let r = x >> 8;
         let c = match (r % 16, style) {
+            (0, _) if nl_mode >= 2 => 'N',
             (0, _) => '\n',
             (1, _) => '\\',
             (2, _) => '\0',
@@ -56,6 +68,22 @@ pub fn utf8_text(e: &mut Ent, max_bytes: usize) -> Vec<u8> {
         } else {
             s.push(c);
         }
+    }
+    if nl_mode == 3 && !s.is_empty() {
+        // exactly one newline: replace the character at (the boundary at or before) the drawn position
+        let mut p = nl_at.min(s.len() - 1);
+        while !s.is_char_boundary(p) {
+            p -= 1;
+        }
+        let ch_len = s[p..].chars().next().map(|c| c.len_utf8()).unwrap_or(1);
+        let mut t = String::with_capacity(s.len());
+        t.push_str(&s[..p]);
+        t.push('\n');
+        for _ in 1..ch_len {
+            t.push('x');
+        }
+        t.push_str(&s[p + ch_len..]);
+        s = t;
     }
     s.into_bytes()
 }
@@ -192,7 +220,8 @@ fn build_seq(e: &mut Ent) -> Seq {
     let mut handlers = vec![];
     for _ in 0..ncalls {
         if e.chance(3, 4) {
-            let text = utf8_text(e, 300);
+            let cap = if e.chance(1, 5) { 4096 } else { 300 };
+            let text = utf8_text(e, cap);
             let buf = place(e, text.len() as u32, &mut avoid, false);
             let blk = place(e, 12, &mut avoid, true);
             let mut b = vec![];
